@@ -138,8 +138,10 @@ class _OsProxy:
 class FaultFS:
     """mode: 'record' | 'crash' | 'fail'; at: operation index; cut: bytes of a torn write (crash only)."""
 
-    def __init__(self, mode="record", at=None, cut=None, at_name=None, buffered=False):
+    def __init__(self, mode="record", at=None, cut=None, at_name=None, buffered=False, persistent=False):
         self.mode = mode
+        self.persistent = persistent  # 'fail' only: the operation keeps failing (same kind, same file) until uninstall
+        self.failing_op = None
         self.buffered = buffered  # model Python's user-space write buffer (see _FFile.write)
         self.at = at
         self.at_name = at_name  # alternatively: inject at the first operation of this kind (e.g. "fsync")
@@ -171,11 +173,15 @@ class FaultFS:
             self.on_point(op)
         idx = len(self.ops)
         self.ops.append(op)
+        if self.persistent and self.failing_op is not None and op[:2] == self.failing_op:
+            raise OSError(errno.EIO, f"injected I/O error at {op} (persistent)")
         if self.at_name is not None and self.at is None and op[0] == self.at_name and not self.injected:
             self.at = idx
         if self.at is not None and idx == self.at and not self.injected:
             self.injected = True
             if self.mode == "fail":
+                if self.persistent:
+                    self.failing_op = op[:2]
                 raise OSError(errno.EIO, f"injected I/O error at {op}")
             if self.mode == "crash":
                 if op[0] == "write" and self.cut:
